@@ -31,14 +31,16 @@ Definition n_for : list Z := [102;111;114].
 Definition ident_ok (s : list Z) : bool :=
   negb (Nat.eqb (length s) 0) && Nat.eqb (ident_len s) (length s).
 
-(* hclsyntax.ValidIdentifier(s): scanTokens(s, scanIdentOnly) yields [Ident; EOF].  scanTokens
-   first strips a UTF-8 byte order mark, so a name that is BOM + identifier is "valid". *)
+(* hclsyntax.ValidIdentifier(s): scanTokens(s, scanIdentOnly) yields [Ident; EOF] and the
+   Ident token covers all of s.  scanTokens first strips a UTF-8 byte order mark; the length
+   check (since /repo 470ca2c) rejects a name that is BOM + identifier. *)
 Definition strip_bom (s : list Z) : list Z :=
   match s with
   | a :: b :: c :: r => if (a =? 239) && (b =? 187) && (c =? 191) then r else s
   | _ => s
   end.
-Definition valid_identifier (s : list Z) : bool := ident_ok (strip_bom s).
+Definition valid_identifier (s : list Z) : bool :=
+  ident_ok (strip_bom s) && Nat.eqb (length (strip_bom s)) (length s).
 
 (* ---- TypeString (public.go) ---------------------------------------------------------------- *)
 
